@@ -399,6 +399,53 @@ def overrides(rep):
         rep.violation({'kind': 'override', 'via': 'shared-config'},
                       'C16 an override for process a changed %r / %r (b must keep default 0) '
                       'and the configuration dictionary %r' % (sa, sb, cfg), {})
+    # overrides naming processes in nested branches next to processes at the
+    # top: every named process is reached whatever the order of the keys, the
+    # processes not named keep their schema
+    class Deep(Composer):
+        def generate_processes(self, config):
+            return {'agents': {'1': {'pa': TagProc({'tag': 'pa'}), 'pk': TagProc({'tag': 'pk'})},
+                               '2': {'pb': TagProc({'tag': 'pb'})}},
+                    'q': TagProc({'tag': 'q'}), 'r': TagProc({'tag': 'r'})}
+
+        def generate_topology(self, config):
+            return {'agents': {'1': {'pa': {'v': ('a',)}, 'pk': {'v': ('k',)}},
+                               '2': {'pb': {'v': ('b',)}}},
+                    'q': {'v': ('q',)}, 'r': {'v': ('r',)}}
+
+    def ov(d):
+        return {'v': {'x': {'_default': d}}}
+    named = {('agents', '1', 'pa'): 11, ('agents', '2', 'pb'): 12, ('q',): 13}
+    orders = [['agents', 'q'], ['q', 'agents']]
+    for order in orders:
+        for via in ('composer', 'merge', 'composite'):
+            rep.evaluations += 1
+            full = {'agents': {'1': {'pa': ov(11)}, '2': {'pb': ov(12)}}, 'q': ov(13)}
+            override = {k: full[k] for k in order}
+            if via == 'composer':
+                comp = Deep({'_schema': override}).generate()
+            elif via == 'merge':
+                comp = Deep().generate()
+                comp.merge(schema_override=override)
+            else:
+                base = Deep().generate()
+                comp = Composite({'processes': base['processes'],
+                                  'topology': base['topology'], '_schema': override})
+            got = {}
+            for path in [('agents', '1', 'pa'), ('agents', '1', 'pk'), ('agents', '2', 'pb'),
+                         ('q',), ('r',)]:
+                node = comp['processes']
+                for k in path:
+                    node = node[k]
+                got[path] = node.get_schema()['v']['x'].get('_default')
+            want = {path: named.get(path, 0) for path in got}
+            if got != want:
+                rep.violation({'kind': 'override', 'via': via, 'target': 'nested',
+                               'order': '/'.join(order)},
+                              'C16 a schema override naming agents/1/pa, agents/2/pb and q (keys '
+                              'in the order %s, through %s) gives the defaults %r, expected %r'
+                              % (order, via, got, want), {})
+    rep.nontrivial.add('nested-overrides')
     # a process and a step under one name cannot both be kept: rejected everywhere
     rep.evaluations += 1
 
